@@ -293,7 +293,8 @@ def proof_status(prop, coq):
     if not idx:
         return {"ok": True, "present": False, "obligations": 0, "discharged": 0, "theorems": {}, "problems": [], "full": False}
     problems = []
-    files = coq_closure(idx["file"])
+    pfiles = [idx["file"]] + idx.get("extra_files", [])
+    files = sorted(set(f for pf in pfiles for f in coq_closure(pf)))
     obligations = 0
     discharged = 0
     for f in files:
@@ -308,9 +309,9 @@ def proof_status(prop, coq):
     # Print Assumptions of each property theorem, by a fresh coqc run
     thms = {}
     pad = os.path.join(CACHE, "pa"); os.makedirs(pad, exist_ok=True)
-    mod = idx["file"][:-2].replace("/", ".")
     vf = os.path.join(pad, "PA_%s.v" % prop)
-    open(vf, "w").write("From BidiVerif Require Import %s.\n" % mod +
+    open(vf, "w").write("".join("From BidiVerif Require %s.\n" % pf[:-2].replace("/", ".") for pf in pfiles) +
+                        "".join("Import BidiVerif.%s.\n" % pf[:-2].replace("/", ".") for pf in pfiles) +
                         "".join("Print Assumptions %s.\n" % t for t in idx["theorems"]))
     rc, out, _ = sh("timeout 600 coqc -Q %s BidiVerif %s 2>&1" % (COQ, vf), cwd=pad)
     if rc != 0:
